@@ -150,7 +150,7 @@ package ion
 //@ ensures[C06,C19] bsStream(b) && b.pos-old(b.pos) <= n
 //@ ensures[C03,C08,C19] n < 1<<63 && uint64(old(bsAvail(b))) >= n ==> err == nil && b.pos == old(b.pos)+n && bsS(b).cur == old(bsS(b).cur)+int(n) && uint64(len(result)) == n
 //@ ensures[C03,C13] forall k int :: n < 1<<63 && uint64(old(bsAvail(b))) >= n && 0 <= k && uint64(k) < n ==> result[k] == old(bsByte(b, k))
-//@ ensures[C03] uint64(old(bsAvail(b))) >= n && n > 0 && n < 1<<63 ==> vcFresh(result)
+//@ ensures[C03,C05,C20] uint64(old(bsAvail(b))) >= n && n > 0 && n < 1<<63 ==> vcFresh(result)
 //@ ensures[C07,C19] n >= 1<<63 || uint64(old(bsAvail(b))) < n ==> err != nil && result == nil
 //@ safe[C06]
 //@ allocbound[C06] 1<<16
@@ -775,7 +775,7 @@ package ion
 
 //@ func (*container).Len
 //@ modifies nothing
-//@ ensures[C04,C12] result == c.len+specTagLen(c.len)
+//@ ensures[C01,C04,C12,C16] result == c.len+specTagLen(c.len)
 //@ safe[C04]
 
 //@ func (*datagram).Len
